@@ -1,9 +1,90 @@
+"""U-LINK: the consistency phase of separate::link_cores (everything before code generation), as a fragment.
+
+Two loop skeletons are supported, selected by the shape of the dependency loop found in the source on this run:
+  A  `for (pkg, unit) in by_name.iter()`        (the repository's form)
+  B  `for pkg in order.iter()` + `by_name.get(pkg)`  (walk the topological order; needs topo_sort's completeness, assumed)
+Any other shape is outside the unit (UNDECIDED).  In both, the property proved is the same postcondition.
+"""
+import copy
 import re
-from vlib.gen import Unit, Fn, Adt, Raw
+
+from vlib.gen import Unit, Fn, Adt, Raw, load_source
+from vlib.rsitems import AnchorLost
 from units.u_art import UNIT as ART
 
 S = "crates/compiler/src/pipeline/separate.rs"
 art_types = [it for it in ART.items if isinstance(it, (Adt, Raw))]
+compute_hash = copy.copy([it for it in ART.items if isinstance(it, Fn) and it.name == "compute_hash"][0])
+compute_hash.contract_only = True
+CUT = "let mut genv = GlobalTypeEnv::new();"
+
+COMMON_GHOST = [("@entry", "", "let ghost cores0 = cores@; proof { broadcast use key_view_string, key_view_str; }"),
+                ("@loop:0:body", "", "let ghost m0 = by_name@; let ghost n0 = cores0.len() - __cv0@.len();"),
+                ("by_name.insert(", "line-before", "let ghost gc = core; proof { assert(gc == cores0[n0]); }"),
+                ("by_name.insert(", "line-after", "proof { lemma_indexed_step(m0, cores0, n0, gc); }")]
+LOOP0 = """invariant __cv0@.len() <= cores0.len(), __cv0@ == cores0.subrange(cores0.len() - __cv0@.len(), cores0.len() as int),
+                        indexed(by_name@, cores0, cores0.len() - __cv0@.len()),
+                    decreases __cv0@.len(),"""
+HASH_RW = (re.compile(r"if &([\w\.]+) != expected_hash \{"), r"if string_ne(&\1, expected_hash) {", 1)
+MAIN_RW = ("main.core_ir.toplevels.iter().any(|f| f.name == \"main\")", "core_file_has_main(&main.core_ir)")
+
+
+def shape():
+    src = load_source(S)
+    s, b, e = src.find_fn("link_cores")
+    body = src.text[s:e]
+    if CUT not in body:
+        raise AnchorLost("link_cores: cut anchor lost")
+    pre = body[:body.index(CUT)]
+    if re.search(r"for\s+\(\s*\w+\s*,\s*\w+\s*\)\s+in\s+by_name\.iter\(\)", pre):
+        return "A"
+    if re.search(r"for\s+\w+\s+in\s+order\.iter\(\)", pre):
+        return "B"
+    raise AnchorLost("link_cores: the dependency loop has neither of the two supported shapes")
+
+
+def link_fn():
+    sh = shape()
+    if sh == "A":
+        return Fn(file=S, name="link_cores", ret="r", attrs="#[verifier::loop_isolation(false)]",
+                  cut_before=CUT, cut_tail="    proof { lemma_link_final(by_name@, cores0); }\n    link_rest(by_name, order)",
+                  obligation="link succeeds only if every recorded dependency hash equals the hash of the linked dependency's interface",
+                  rewrites=[MAIN_RW, HASH_RW],
+                  contract="ensures r is Ok ==> deps_consistent(cores@),",
+                  ghost=COMMON_GHOST,
+                  loops={
+                      0: LOOP0,
+                      1: """invariant __ek0 <= __es0@.len(),
+                        forall|i: int, dep: Seq<char>| 0 <= i < __ek0 && (#[trigger] __es0@[i].1.deps@.contains_key(dep)) ==>
+                            by_name@.contains_key(dep) && hash_matches(by_name@[dep], __es0@[i].1.deps@[dep]),
+                    decreases __es0@.len() - __ek0,""",
+                      2: """invariant __ek1 <= __es1@.len(), 0 < __ek0 <= __es0@.len(),
+                        forall|i: int, dep: Seq<char>| 0 <= i < __ek0 - 1 && (#[trigger] __es0@[i].1.deps@.contains_key(dep)) ==>
+                            by_name@.contains_key(dep) && hash_matches(by_name@[dep], __es0@[i].1.deps@[dep]),
+                        forall|i: int| 0 <= i < __ek1 ==> by_name@.contains_key(#[trigger] __es1@[i].0@)
+                            && hash_matches(by_name@[__es1@[i].0@], __es1@[i].1@),
+                    decreases __es1@.len() - __ek1,""",
+                  })
+    # shape B: the outer loop walks `order`
+    return Fn(file=S, name="link_cores", ret="r", attrs="#[verifier::loop_isolation(false)]",
+              rules=["attrs", "fmtmsg", "msg_to_string", ("consume", ["cores"]), "for_entries", "for_index", "ok_or_else_q"],
+              cut_before=CUT, cut_tail="    proof { lemma_link_final_b(by_name@, cores0, order@); }\n    link_rest(by_name, order)",
+              obligation="link succeeds only if every recorded dependency hash equals the hash of the linked dependency's interface",
+              rewrites=[MAIN_RW, (re.compile(r"if &([\w\.]+) != expected_hash \{"), r"if string_ne(&\1, expected_hash) {", "*")],
+              contract="ensures r is Ok ==> deps_consistent(cores@),",
+              ghost=COMMON_GHOST,
+              loops={
+                  0: LOOP0,
+                  1: """invariant __fk0 <= order@.len(),
+                        forall|t: int| 0 <= t < __fk0 ==> unit_ok(by_name@, (#[trigger] order@[t])@),
+                    decreases order@.len() - __fk0,""",
+                  2: """invariant __ek0 <= __es0@.len(), 0 < __fk0 <= order@.len(), by_name@.contains_key(pkg@) && *unit == by_name@[pkg@],
+                        forall|t: int| 0 <= t < __fk0 - 1 ==> unit_ok(by_name@, (#[trigger] order@[t])@),
+                        forall|i: int| 0 <= i < __ek0 ==> by_name@.contains_key(#[trigger] __es0@[i].0@)
+                            && hash_matches(by_name@[__es0@[i].0@], __es0@[i].1@),
+                    decreases __es0@.len() - __ek0,""",
+              })
+
 
 UNIT = Unit(
     name="U-LINK",
@@ -13,35 +94,8 @@ UNIT = Unit(
              "recorded in every unit is present among the linked units with exactly the recorded interface hash; duplicates are rejected",
     trusted=["FRAGMENT: the part of link_cores after the consistency checks (from `let mut genv = GlobalTypeEnv::new();`: merging exports, "
              "mono, lift, anf, go) is replaced by the opaque continuation link_rest(by_name, order) and is not verified",
-             "HashMap<String,_>/BTreeMap iteration is modelled as an arbitrary-order list of the entries (shim `entries`)"],
-    items=art_types + [
-        Raw(path="contracts/link.shim.rs"),
-        Fn(file=S, name="link_cores", ret="r",
-           attrs="#[verifier::loop_isolation(false)]",
-           cut_before="let mut genv = GlobalTypeEnv::new();",
-           cut_tail="    proof { lemma_link_final(by_name@, cores0); }\n    link_rest(by_name, order)",
-           obligation="link succeeds only if every recorded dependency hash equals the hash of the linked dependency's interface",
-           rewrites=[("main.core_ir.toplevels.iter().any(|f| f.name == \"main\")", "core_file_has_main(&main.core_ir)"),
-                     (re.compile(r"if &([\w\.]+) != expected_hash \{"), r"if string_ne(&\1, expected_hash) {", 1)],
-           contract="ensures r is Ok ==> deps_consistent(cores@),",
-           ghost=[("@entry", "", "let ghost cores0 = cores@; proof { broadcast use key_view_string, key_view_str; }"),
-                  ("@loop:0:body", "", "let ghost m0 = by_name@; let ghost n0 = cores0.len() - __cv0@.len();"),
-                  ("by_name.insert(", "line-before", "let ghost gc = core; proof { assert(gc == cores0[n0]); }"),
-                  ("by_name.insert(", "line-after", "proof { lemma_indexed_step(m0, cores0, n0, gc); }")],
-           loops={
-               0: """invariant __cv0@.len() <= cores0.len(), __cv0@ == cores0.subrange(cores0.len() - __cv0@.len(), cores0.len() as int),
-                        indexed(by_name@, cores0, cores0.len() - __cv0@.len()),
-                    decreases __cv0@.len(),""",
-               1: """invariant __ek0 <= __es0@.len(),
-                        forall|i: int, dep: Seq<char>| 0 <= i < __ek0 && (#[trigger] __es0@[i].1.deps@.contains_key(dep)) ==>
-                            by_name@.contains_key(dep) && by_name@[dep].interface.interface_hash@ == __es0@[i].1.deps@[dep],
-                    decreases __es0@.len() - __ek0,""",
-               2: """invariant __ek1 <= __es1@.len(), 0 < __ek0 <= __es0@.len(),
-                        forall|i: int, dep: Seq<char>| 0 <= i < __ek0 - 1 && (#[trigger] __es0@[i].1.deps@.contains_key(dep)) ==>
-                            by_name@.contains_key(dep) && by_name@[dep].interface.interface_hash@ == __es0@[i].1.deps@[dep],
-                        forall|i: int| 0 <= i < __ek1 ==> by_name@.contains_key(#[trigger] __es1@[i].0@)
-                            && by_name@[__es1@[i].0@].interface.interface_hash@ == __es1@[i].1@,
-                    decreases __es1@.len() - __ek1,""",
-           }),
-    ],
+             "HashMap<String,_>/BTreeMap iteration is modelled as an arbitrary-order list of the entries (shim `entries`)",
+             "separate::topo_sort is not verified; its shim assumes that on success the order lists every linked package (used only by loop shape B)"],
+    items=art_types + [Raw(path="contracts/link.shim.rs"), compute_hash],
 )
+UNIT.items = UNIT.items + [link_fn()]
